@@ -24,6 +24,7 @@ macro_rules! props {
 props! {
     "C02" => c02,
     "C03" => c03,
+    "C08" => c08,
     "C09" => c09,
     "C13" => c13,
     "C14" => c14,
